@@ -307,7 +307,7 @@ def run_cell(rec, cell):
                 kind in ('open', 'post', 'poll'):
             rec.viol('origin-check-when-disabled', 'request refused although '
                      'origin checking is disabled: %s' % desc, case)
-        if rec.evaluations % 1201 == 0:
+        if rec.evaluations % 1201 == 1:
             rec.sample({'request': desc, 'allowed': ok, 'status': t.status})
     finally:
         sim.teardown()
